@@ -282,6 +282,12 @@ let run_case (env : mdesc array) (envl : mdesc list) (line : string) : string op
          Buffer.add_string b (Printf.sprintf "W %d %d %d"
                                 (if WF.wf_msg envl m then 1 else 0) (if Canon.canon_msg envl m then 1 else 0)
                                 (if Canon.env_ok envl then 1 else 0))
+       | "WNORM" ->
+         (* model only: the normal form (Impl/WNorm.v) of a hand-built message, and whether it is canonical *)
+         let m = parse_msg t in
+         let n = WNorm.wnorm_msg envl m in
+         Buffer.add_string b (Printf.sprintf "WN %d U" (if Canon.canon_msg envl n then 1 else 0));
+         print_msg env b n
        | "UNORM" ->
          (* model only: is the normalisation (Impl/Norm.v) of what unpack returns in the normal form of the
             round-trip theorem?  N - : unpack failed;  N <canon (norm m)> <canon m> *)
